@@ -573,6 +573,18 @@ func (c *FailoverController) executeFailback(reason string) {
 			zap.Duration("duration", c.config.GracePeriod),
 		)
 		time.Sleep(c.config.GracePeriod)
+
+		// The partner may have failed (and the control loop may have canceled
+		// this failback) while we were draining: never hand the active role
+		// to an unhealthy partner.
+		c.mu.Lock()
+		if c.state != FailoverStateFailbackPending || !c.healthMonitor.IsPartnerHealthy() {
+			c.logger.Warn("Partner became unhealthy during grace period, canceling failback")
+			c.state = FailoverStateComplete
+			c.mu.Unlock()
+			return
+		}
+		c.mu.Unlock()
 	}
 
 	// Call role change callback
